@@ -365,3 +365,43 @@ def gen_option_tie(rnd):
             nodes.append({'id': o + 'x', 'kind': 'named'})
             edges.append([o, o + 'x'])
     return {'nodes': nodes, 'edges': edges, 'sel': sel, 'incompat': [], 'constraints': [], 'conn': [], 'start': ['S']}
+
+
+def gen_necessary_conflict(rnd):
+    """Permanent selection choices on separate slots; a node X that (almost) every option of one choice derives, and an
+    incompatibility between X and an option of ANOTHER choice: that option is never admissible, but nothing shows it
+    before one of the two choices is taken.  Node names and decision ids are drawn so that both name orders of the
+    incompatible pair and both decision orders of the two choices occur."""
+    n = rnd.randint(2, 3)
+    keys = rnd.sample(['A', 'B', 'C', 'D'], n)
+    nodes = [{'id': 'S', 'kind': 'named'}]
+    edges, sel, incompat = [], [], []
+    opts = []
+    for i, k in enumerate(keys):
+        slot = 'Slot%d' % i
+        nodes.append({'id': slot, 'kind': 'named'})
+        edges.append(['S', slot])
+        pre = rnd.choice('EGKMPRT')
+        o = ['%s%d_%d' % (pre, i, j) for j in range(rnd.randint(2, 3))]
+        nodes += [{'id': x, 'kind': 'named'} for x in o]
+        sel.append({'key': k, 'id': k, 'origin': slot, 'options': o})
+        opts.append(o)
+    carrier, victim = rnd.sample(range(n), 2)
+    x = rnd.choice(['B_shared', 'Common', 'Zshared', 'Xnode'])
+    nodes.append({'id': x, 'kind': 'named'})
+    derive = list(opts[carrier])
+    if rnd.random() < .3:
+        derive.pop(rnd.randrange(len(derive)))      # avoidable: one option of the carrier does not need X
+    for o in derive:
+        edges.append([o, x])
+    if rnd.random() < .4:
+        nodes.append({'id': 'Below', 'kind': 'named'})
+        edges.append([x, 'Below'])
+    bad = rnd.sample(opts[victim], rnd.randint(1, len(opts[victim]) - 1))
+    for o in bad:
+        incompat.append([o, x] if rnd.random() < .5 else [x, o])
+    if rnd.random() < .3 and n == 3:
+        third = [i for i in range(n) if i not in (carrier, victim)][0]
+        incompat.append([rnd.choice(opts[third]), rnd.choice(opts[victim])])
+    return {'nodes': nodes, 'edges': edges, 'sel': sel, 'incompat': incompat, 'constraints': [], 'conn': [],
+            'start': ['S']}
